@@ -13,9 +13,10 @@ EXTENDS System, Json, IOUtils, TLCExt
 
 VARIABLES tid,   \* which trace of the batch
           l,     \* next line to consume
-          sil    \* silent steps since the last consumed line / queue pop
+          sil,   \* silent steps since the last consumed line / queue pop
+          n      \* steps taken so far (only used to find the furthest state for the diagnosis)
 
-tvars == <<classes, insts, tid, l, sil>>
+tvars == <<classes, insts, tid, l, sil, n>>
 
 Batch  == JsonDeserialize(IOEnv.BATCH_FILE)
 NB     == Len(Batch)
@@ -24,12 +25,13 @@ SilentBound == 16
 Lines   == Batch[tid].lines
 HasLine(e) == l <= Len(Lines) /\ Lines[l].e = e
 L == Lines[l]
-Consume == l' = l + 1 /\ sil' = 0 /\ UNCHANGED tid
+Consume == l' = l + 1 /\ sil' = 0 /\ n' = n + 1 /\ UNCHANGED tid
 
 TraceInit ==
     /\ tid \in 1..NB
     /\ l = 1
     /\ sil = 0
+    /\ n = 0
     /\ SysInit(Batch[tid].classes)
 
 ProjView(m) == IF m.cur = "" THEN "none" ELSE m.cur
@@ -44,7 +46,7 @@ TCall == /\ HasLine("call")
               [] L.api = "activate"     -> Activate(L.i, L.gv)
               [] L.api = "write_setter" -> WriteSetter(L.i, L.v)
               [] L.api = "write_model"  -> WriteModel(L.i, L.v)
-              [] L.api = "add_listener" -> AddListener(L.i, L.v)
+              [] L.api = "add_listener" -> AddListeners(L.i, SeqToSet(L.vs))
               [] L.api = "copy"         -> Copy(L.i, L.j)
               [] OTHER -> FALSE
          /\ Consume
@@ -53,9 +55,11 @@ TBegin == /\ HasLine("B")
           /\ BeginCb(L.i, L.c)
           /\ LET m == M(L.i)
                  f == Top(m)
-             IN /\ L.view = ProjView(m)
-                /\ L.src = f.src /\ L.tgt = f.tgt /\ L.evn = f.ev
-                /\ L.st = (IF SeesSource(f.phase) THEN f.src ELSE f.tgt)
+             IN \* (a guard given as property / attribute gets no injected arguments: L.inj = FALSE)
+                /\ L.inj => /\ L.view = ProjView(m)
+                            /\ L.src = f.src /\ L.tgt = f.tgt /\ L.evn = f.ev
+                            /\ L.st = (IF SeesSource(f.phase) THEN f.src ELSE f.tgt)
+                /\ D(L.i).cbs[L.c].evcb = ""
                 /\ L.nest = NumTrig(m) - 1
                 /\ L.pslot \in {0, L.i}      \* the provider object belongs to this instance
           /\ Consume
@@ -114,11 +118,22 @@ TProbe == /\ HasLine("probe")
           /\ UNCHANGED svars
           /\ Consume
 
+\* an event of the machine used as an action (on="other_event"): no user code runs, so nothing is logged - the
+\* callback begins, sends that event to its own machine (queued in RTC mode) and returns None
+EvCbs(i) == {c \in DOMAIN D(i).cbs : D(i).cbs[c].evcb # ""}
 TSilent == /\ sil < SilentBound
            /\ \E i \in Slots :
                 \/ LoopPop(i) /\ sil' = 1
+                \/ \E c \in (IF Born(i) /\ TopIs(M(i), "trig") THEN EvCbs(i) ELSE {}) :
+                       /\ \/ BeginCb(i, c)
+                          \/ (IsOpen(Top(M(i)), c) /\ OpenOf(Top(M(i)), c).wait = "no" /\ ~OpenOf(Top(M(i)), c).sent
+                                /\ NestedSendEv(i, c, D(i).cbs[c].evcb))
+                          \/ NestedRet(i, c)
+                          \/ (IsOpen(Top(M(i)), c) /\ OpenOf(Top(M(i)), c).sent /\ EndCb(i, c, FALSE))
+                       /\ sil' = sil + 1
                 \/ (LoopExit(i) \/ Select(i) \/ GuardFail(i) \/ Advance(i) \/ Assign(i)
                       \/ TrigDone(i) \/ Unwind(i)) /\ sil' = sil + 1
+           /\ n' = n + 1
            /\ UNCHANGED <<tid, l>>
 
 TraceNext == TNew \/ TCall \/ TBegin \/ TEnd \/ TNCall \/ TNRet \/ TRet \/ TClass \/ TProbe \/ TSilent
@@ -129,18 +144,32 @@ TraceSpec == TraceInit /\ [][TraceNext]_tvars
 (* first failed property invariant on the way (0 = none).  A state where   *)
 (* an invariant fails is not extended.                                     *)
 (***************************************************************************)
+\* what the specification was doing at the furthest point of a rejected trace (for the replay file)
+SetToSeq(S) == LET RECURSIVE F(_) F(T) == IF T = {} THEN <<>> ELSE LET e == CHOOSE y \in T : TRUE IN <<e>> \o F(T \ {e}) IN F(S)
+Busy == {i \in Slots : Born(i) /\ (M(i).stack # <<>> \/ M(i).out.k # "none")}
+Summary ==
+    LET i == IF Busy # {} THEN CHOOSE x \in Busy : TRUE ELSE IF l <= Len(Lines) /\ "i" \in DOMAIN Lines[l] THEN Lines[l].i ELSE 1
+        m == IF i \in Slots THEN M(i) ELSE DeadM
+        f == IF m.stack # <<>> THEN Top(m) ELSE BlankF
+    IN [i |-> i, cur |-> m.cur, queued |-> [k \in DOMAIN m.queue |-> m.queue[k].ev], frames |-> Len(m.stack),
+        raising |-> m.raising, exc |-> m.exc.kind, out |-> m.out.k, async |-> m.async,
+        phase |-> IF f.k = "trig" THEN f.phase ELSE IF f.k = "loop" THEN "loop" ELSE "idle",
+        ev |-> f.ev, from |-> f.from, tix |-> f.tix, src |-> f.src, tgt |-> f.tgt,
+        pending |-> SetToSeq(f.pending), open |-> SetToSeq({o.c : o \in f.open}), gfail |-> f.gfail]
 Progress ==
+    /\ (IF TLCGet(tid) < l \/ (TLCGet(tid) = l /\ TLCGet(3 * NB + tid) <= n)
+        THEN TLCSet(3 * NB + tid, n) /\ TLCSet(2 * NB + tid, ToJson(Summary)) ELSE TRUE)
     /\ (IF TLCGet(tid) < l THEN TLCSet(tid, l) ELSE TRUE)
     /\ (IF InvFailed # 0
         THEN (IF TLCGet(NB + tid) = 0 THEN TLCSet(NB + tid, InvFailed) ELSE TRUE) /\ FALSE
         ELSE TRUE)
 
-RegInit == \A t \in 1..(2 * NB) : TLCSet(t, 0)
+RegInit == \A t \in 1..(4 * NB) : TLCSet(t, 0)
 ASSUME RegInit
 
 Verdicts ==
     /\ TLCGet("stats").diameter >= 0
     /\ \A t \in 1..NB :
          PrintT(<<IF TLCGet(t) = Len(Batch[t].lines) + 1 /\ TLCGet(NB + t) = 0 THEN "ACCEPT" ELSE "REJECT",
-                  t, TLCGet(t), TLCGet(NB + t)>>)
+                  t, TLCGet(t), TLCGet(NB + t), TLCGet(2 * NB + t)>>)
 =============================================================================
